@@ -54,6 +54,11 @@ theorem embS_pos (s : Stmt) (p p' : Int) (c : Node) (h : EmbS s (.stmt p c)) : E
     obtain ⟨p0, q, l, he, h1⟩ := h
     cases he
     exact ⟨p', q, l, rfl, h1⟩
+  | mcall o m as =>
+    simp only [EmbS] at h ⊢
+    obtain ⟨p0, q, q', ps, rc, ops, nm, hnm, he, h1⟩ := h
+    cases he
+    exact ⟨p', q, q', ps, rc, ops, nm, hnm, rfl, h1⟩
   | _ => simp [EmbS] at h
 
 /-- the components `withParts` extracts from the three header pieces of an embedded `repeat with` -/
@@ -97,7 +102,9 @@ theorem embT_tgtL1 : (s : Stmt) → (x : Src) → EmbSrc1 s x → ∀ (o : Int),
   | .hilite t, x, h, o => by
     obtain ⟨sm, p, rfl, _, he, _⟩ := h
     exact ⟨_, rfl, embS_pos _ p _ _ he⟩
-  | .mcall .., x, h, _ => by obtain ⟨sm, p, rfl, ho, he, hp⟩ := h; exact absurd he (by simp [EmbS])
+  | .mcall o m as, x, h, _ => by
+    obtain ⟨sm, p, rfl, _, he, _⟩ := h
+    exact ⟨_, rfl, embS_pos _ p _ _ he⟩
   | .tell .., x, h, _ => by obtain ⟨sm, p, rfl, ho, he, hp⟩ := h; exact absurd he (by simp [EmbS])
   | .repeatIn .., x, h, _ => by obtain ⟨sm, p, rfl, ho, he, hp⟩ := h; exact absurd he (by simp [EmbS])
   | .exitRepeat, x, h, _ => by obtain ⟨sm, p, rfl, ho, he, hp⟩ := h; exact absurd he (by simp [EmbS])
